@@ -7,6 +7,7 @@
 // batch protocol: PARAM(0) = number of scenarios; each scenario = its length, then
 //   V, NC, NC x (len, len x (var, sign)), H, H x (op, var1, sign1, var2, sign2)
 //   op: 0 assume(l1)  1 pop()  2 propagate()  3 next()  4 check({l1})  5 check({l1,l2})  6 simplify_db()  7 new_clause({l1})  8 new_clause({l1,l2})
+//       9 check({l1,l2,l3}) with var2 = v2 + 16*v3 and sign2 = s2 + 2*s3
 // Calls whose documented precondition does not hold in the current (concrete) state are skipped: assume only on an
 // undefined literal with an empty propagation queue, pop only above root level, new_clause / simplify_db only at root level.
 #include "sat_core.h"
@@ -78,6 +79,15 @@ static void check_state(sat_core &s)
     }
     CHECK(sat || undef >= 2, "no added clause is unit or falsified under the reported values (propagation fixpoint)");
   }
+  // (U') the same for every stored clause, learnt ones included: a learnt clause that is unit under the current values but has
+  //      not propagated makes the reported values depend on the undone history (C08)
+  for (auto c : s.constrs)
+  {
+    clause *k = static_cast<clause *>(c);
+    int undef = 0; bool sat = false;
+    for (auto &l : k->lits) { lbool x = s.value(l); if (x == True) sat = true; if (x == Undefined) undef++; }
+    CHECK(sat || undef >= 2, "no stored (learnt) clause is unit or falsified under the reported values");
+  }
   // trail / level bookkeeping agrees with the values
   CHECK(s.trail_lim.size() == s.decisions.size(), "one decision per decision level");
   size_t assigned = 0;
@@ -115,8 +125,9 @@ __attribute__((noinline)) static void scenario() // noinline: cbmc counts loop u
   const int H = rd();
   for (int h = 0; h < H; h++)
   {
-    const int op = rd(), x1 = rd(), s1 = rd(), x2 = rd(), s2 = rd();
-    const lit l1(b[x1], s1 != 0), l2(b[x2], s2 != 0);
+    const int op = rd(), x1 = rd(), s1 = rd(), x2p = rd(), s2p = rd();
+    const int x2 = x2p % 16, x3 = x2p / 16, s2 = s2p & 1, s3 = (s2p >> 1) & 1;
+    const lit l1(b[x1], s1 != 0), l2(b[x2], s2 != 0), l3(b[x3], s3 != 0);
     if (!alive) continue;
     switch (op)
     {
@@ -148,17 +159,20 @@ __attribute__((noinline)) static void scenario() // noinline: cbmc counts loop u
     }
     case 4:
     case 5:
+    case 9:
     { // check(assumptions): false only if clauses + decisions + assumptions are unsatisfiable; the network is left as it was
       std::vector<lit> q;
       q.push_back(l1);
-      if (op == 5) q.push_back(l2);
+      if (op != 4) q.push_back(l2);
+      if (op == 9) q.push_back(l3);
       if (!s.prop_q.empty()) break;
-      bool defined = s.value(l1) != Undefined || (op == 5 && (s.value(l2) != Undefined || variable(l1) == variable(l2)));
+      bool defined = s.value(l1) != Undefined || (op != 4 && (s.value(l2) != Undefined || variable(l1) == variable(l2)));
+      if (op == 9) defined = defined || s.value(l3) != Undefined || variable(l3) == variable(l1) || variable(l3) == variable(l2);
       if (defined) break; // check() assumes its literals one by one: they have to be undefined
       const size_t lvl = s.decision_level();
       lbool before[MAXV];
       for (size_t v = 0; v < s.assigns.size(); v++) before[v] = s.assigns[v];
-      const bool prem = orig_sat() && dec_sat(s) && lval(l1) && (op == 4 || lval(l2));
+      const bool prem = orig_sat() && dec_sat(s) && lval(l1) && (op == 4 || lval(l2)) && (op != 9 || lval(l3));
       const bool r = s.check(q);
       if (!r) CHECK(!prem, "check answers false only if clauses + decisions + assumptions are unsatisfiable");
       CHECK(s.decision_level() <= lvl, "check does not leave its own assumptions on the trail");
